@@ -506,7 +506,46 @@ proof! {
 	}
 }
 
+#[cfg(any(kani, grin_verif))]
+proof! {
+	[bitmap, alloc, bulk] fn compaction_plan_matches_definition() {
+		// PMMRBackend::pos_to_rm (the planning step of check_compact) on a backend with detached
+		// files: from ANY valid prune-list state and any consistent leaf set / rewind set / cutoff,
+		//   leaves removed      = spent, unpruned leaves up to the cutoff
+		//   positions to remove = positions that are pruned afterwards, are not a root of a pruned
+		//                         subtree afterwards (root hashes stay for Merkle proofs) and were
+		//                         not already removed by an earlier compaction
+		// where "pruned afterwards" is the closure of the old pruned set plus the removed leaves.
+		env::alloc_block(64);
+		env::bitmap_select_max(8);
+		let (pl, c) = any_valid_state();
+		let set0 = any_pos1_set();
+		let rm = any_pos1_set();
+		// usage protocol: the leaf set and the rewind set hold leaf positions that are not pruned
+		nd::assume(set0 & !leaves1() == 0 && rm & !leaves1() == 0);
+		nd::assume((set0 | rm) & (c << 1) == 0);
+		let cutoff: u8 = nd::any();
+		nd::assume(cutoff as u64 <= LIM);
+		let ls = LeafSet::verif_from_bitmap(bitmap_from_bits(set0));
+		let rmb = bitmap_from_bits(rm);
+		let be: grin_store::pmmr::PMMRBackend<crate::c07b::Elem> = grin_store::pmmr::PMMRBackend::verif_detached(true, ls, pl);
+		let (leaves_removed, pos_to_rm) = be.verif_pos_to_rm(cutoff as u64, &rmb);
+		let unspent = (set0 & ones_upto(cutoff as u64 + 1)) | rm;
+		let lr = leaves1() & ones_upto(cutoff as u64 + 1) & !unspent & !(c << 1);
+		check!(bits_of(&leaves_removed) == lr, "leaves removed = spent, unpruned leaves up to the cutoff");
+		let c1 = closure(c | (lr >> 1));
+		let already = c & !roots_of(c);
+		let expect = c1 & !roots_of(c1) & !already;
+		check!(bits_of(&pos_to_rm) == expect << 1, "positions to remove = newly interior positions of the pruned subtrees; their roots stay");
+		cover!(expect != 0 && roots_of(c) & expect != 0, "a previously pruned root becomes interior and is removed now");
+		cover!(lr != 0 && expect == 0, "a lone removed leaf stays as its own root");
+		core::mem::forget(be);
+	}
+}
+
 pub const HARNESSES: &[(&str, fn())] = &[
+	#[cfg(any(kani, grin_verif))]
+	("c08::compaction_plan_matches_definition", compaction_plan_matches_definition),
 	#[cfg(any(kani, grin_verif))]
 	("c08::leaf_set_rewind", leaf_set_rewind),
 	#[cfg(any(kani, grin_verif))]
